@@ -310,7 +310,8 @@ def parity_rule(ctx):
                     fresh = False
                     why.append(f"{u} = {ast.unparse(v)} may alias the reference")
     ctx.ob("PAIR-1", "parity: the running occupation is a private copy (the caller's reference is not modified)",
-           fresh and bool(updated), "; ".join(why) or f"{sorted(updated)} built by arithmetic / copy", fi)
+           fresh and bool(updated), "; ".join(why) or f"{sorted(updated)} built by arithmetic / copy", fi,
+           alias_exact=True)      # this rule is itself the aliasing judgement, read off the syntax tree
 
 
 def _parity_segment(ctx, fi):
